@@ -68,7 +68,7 @@ class Ctx:
 # ------------------------------------------------------------------------------- sanitizer reports
 SAN_ENV = {
     "ASAN_OPTIONS": "abort_on_error=0:exitcode=99:detect_leaks=0:allocator_may_return_null=1:"
-                    "detect_stack_use_after_return=0:malloc_context_size=12:symbolize=1",
+                    "detect_stack_use_after_return=0:malloc_context_size=12:symbolize=1:handle_abort=1",
     "UBSAN_OPTIONS": "print_stacktrace=1:halt_on_error=1:exitcode=99",
     "LSAN_OPTIONS": "exitcode=99",
     "TSAN_OPTIONS": "halt_on_error=0:exitcode=0:second_deadlock_stack=1:history_size=4",
@@ -94,7 +94,7 @@ def _frames(block):
             fn, loc = parts[1], parts[-1]
         else:
             continue
-        if "/harness/" in loc or "sanitizer" in loc or "libsanitizer" in loc or "/libc" in loc or "libstdc++" in loc:
+        if "/harness/" in loc or "sanitizer" in loc or "libsanitizer" in loc or "/libc" in loc or "libstdc++" in loc or loc.startswith("/usr/"):
             lib = False
         else:
             lib = ("/src/" in loc) or ("(" not in loc)
@@ -427,6 +427,7 @@ def _run(mod, ctx, args, t0):
     coverage.update(extra_cov)
     wall = time.time() - t0
     min_conclusive = max(1, int(0.25 * len(results)))
+    replaying = bool(args.replay or args.only)
     status = 0
     problems = []
     if new:
@@ -436,7 +437,7 @@ def _run(mod, ctx, args, t0):
             problems.append("%d oracle exceptions, first: %s" % (len(harness_errs), harness_errs[0].get("reason")))
         if (n_held + n_vio) < min_conclusive:
             problems.append("too few conclusive cases: %d of %d (need %d)" % (n_held + n_vio, len(results), min_conclusive))
-        if len(sigs) < 2:
+        if len(sigs) < 2 and not replaying:
             problems.append("distinct_nontrivial=%d < 2" % len(sigs))
         if problems:
             status = 2
